@@ -604,14 +604,14 @@ func c14RunJobs(c *core.Ctx, bin string, jobs []c14Job) []map[string]any {
 		}
 		for i, v := range reached {
 			if v == 0 {
-				panic(core.HarnessError(fmt.Sprintf("scenario %s is vacuous: thread %d never reached the shared index", r.j.sc.Name, i)))
+				c14Vacuity(fmt.Sprintf("scenario %s is vacuous: thread %d never reached the shared index", r.j.sc.Name, i))
 			}
 		}
 		if !r.j.sc.Prebuilt && len(builders) < 2 && r.j.bound != 0 {
-			panic(core.HarnessError(fmt.Sprintf("scenario %s is vacuous: only one builder ever (%v)", r.j.sc.Name, builders)))
+			c14Vacuity(fmt.Sprintf("scenario %s is vacuous: only one builder ever (%v)", r.j.sc.Name, builders))
 		}
 		if bin != "" && memAcc == 0 {
-			panic(core.HarnessError("full-memory pass is vacuous: no instrumented access was checked in " + r.j.sc.Name))
+			c14Vacuity("full-memory pass is vacuous: no instrumented access was checked in " + r.j.sc.Name)
 		}
 		c.Eval(int(ex))
 		c.Nontrivial(int(nontriv))
